@@ -117,7 +117,7 @@ def runBlocks (cfg : Config) (tol : Rat) : Nat → List BlockReq → Variant →
       | some g =>
         let res := ev.resid g
         let line := "WL " ++ showNats ev.wrtLevel ++ " WC " ++ showNats ev.wrtChange ++ " R " ++ showCells res
-          ++ " X " ++ showBool (exitTest tol res)
+          ++ " X " ++ showBool (exitTest tol res) ++ " X2 " ++ showBool (exitTest2 tol res)
         match blockStep cfg (fun _ _ => some g) bid r.block v with
         | .ok v' => runBlocks cfg tol (bid + 1) rest v' (line :: acc)
         | .error _ => ((line :: acc).reverse, v)
